@@ -1,0 +1,171 @@
+//go:build verif
+
+package fp
+
+// Contracts for typeclass.go (EqFunc / CompareFunc / LessFunc and the Given
+// instances), checked by /verif/govc.  Comment-only file.
+//
+// Property C10: the derived operations of the two Ord carriers are consistent
+// with Less; ThenComparing only breaks ties; Reversed flips.  The order laws
+// proper (trichotomy, transitivity, ...) under hypotheses on the wrapped
+// function are lemmas in ord/verif_contracts.go (they need the predicates of
+// internal/veriflaws, which this package cannot import).
+
+// ---- EqFunc / EqGiven ---------------------------------------------------------
+//
+//@ func (EqFunc).Eqv(r, a, b) result
+//@   prop C09
+//@   ensures result == r(a, b)
+//
+//@ func EqGiven() result
+//@   prop C09
+//@   ensures forall a T, b T :: result.Eqv(a, b) == (a == b)
+//@   tag def
+//@   ensures forall a T :: result.Eqv(a, a)
+//@   tag refl
+//@   ensures forall a T, b T :: result.Eqv(a, b) == result.Eqv(b, a)
+//@   tag sym
+//@   ensures forall a T, b T, c T :: result.Eqv(a, b) && result.Eqv(b, c) ==> result.Eqv(a, c)
+//@   tag trans
+//
+// ---- CompareFunc ----------------------------------------------------------------
+//
+//@ func (CompareFunc).Compare(r, a, b) result
+//@   prop C10
+//@   ensures result == r(a, b)
+//
+//@ func (CompareFunc).Eqv(r, a, b) result
+//@   prop C10
+//@   ensures result == (r.Compare(a, b) == 0)
+//@   ensures result == (!r.Less(a, b) && !(r.Compare(a, b) > 0))
+//
+//@ func (CompareFunc).Less(r, a, b) result
+//@   prop C10
+//@   ensures result == (r.Compare(a, b) < 0)
+//
+//@ func (CompareFunc).LessEq(r, a, b) result
+//@   prop C10
+//@   ensures result == (r.Less(a, b) || r.Eqv(a, b))
+//@   ensures result == (r.Compare(a, b) <= 0)
+//
+//@ func (CompareFunc).Min(r, a, b) result
+//@   prop C10
+//@   requires forall p T, q T :: (r(p, q) < 0) == (r(q, p) > 0)
+//@   ensures r.Less(a, b) ==> Eq(result, a)
+//@   ensures r.Less(b, a) ==> Eq(result, b)
+//@   ensures Eq(result, a) || Eq(result, b)
+//@   ensures (Eq(result, a) && Eq(r.Max(a, b), b)) || (Eq(result, b) && Eq(r.Max(a, b), a))
+//@   tag minMaxArePermutation
+//@   ensures !r.Less(a, result) && !r.Less(b, result)
+//@   tag lowerBound
+//
+//@ func (CompareFunc).Max(r, a, b) result
+//@   prop C10
+//@   requires forall p T, q T :: (r(p, q) < 0) == (r(q, p) > 0)
+//@   ensures r.Less(a, b) ==> Eq(result, b)
+//@   ensures r.Less(b, a) ==> Eq(result, a)
+//@   ensures Eq(result, a) || Eq(result, b)
+//@   ensures !r.Less(result, a) && !r.Less(result, b)
+//@   tag upperBound
+//
+//@ func (CompareFunc).ThenComparing(r, other) result
+//@   prop C10
+//@   ensures forall a T, b T :: r(a, b) != 0 ==> result.Compare(a, b) == r(a, b)
+//@   tag primaryDecides
+//@   ensures forall a T, b T :: r(a, b) == 0 ==> result.Compare(a, b) == other.Compare(a, b)
+//@   tag tieBreak
+//
+//@ func (CompareFunc).Reversed(r) result
+//@   prop C10
+//@   ensures forall a T, b T :: result.Compare(a, b) == -r(a, b)
+//@   tag negates
+//@   ensures forall a T, b T :: result.Less(a, b) == (r(a, b) > 0)
+//@   tag flips
+//@   ensures forall a T, b T :: result.Eqv(a, b) == r.Eqv(a, b)
+//@   tag sameTies
+//
+//@ lemma compareFuncReversedFlips[T any](r CompareFunc[T], a T, b T)
+//@   prop C10
+//@   requires forall p T, q T :: (r(p, q) < 0) == (r(q, p) > 0)
+//@   ensures r.Reversed().Less(a, b) == r.Less(b, a)
+//@   ensures r.Reversed().Eqv(a, b) == r.Eqv(a, b)
+//@   ensures r.Reversed().Reversed().Compare(a, b) == r.Compare(a, b)
+//
+// ---- LessFunc ---------------------------------------------------------------------
+//
+//@ func (LessFunc).Less(r, a, b) result
+//@   prop C10
+//@   ensures result == r(a, b)
+//
+//@ func (LessFunc).Compare(r, a, b) result
+//@   prop C10
+//@   requires !(r(a, b) && r(b, a))
+//@   ensures (result < 0) == r(a, b)
+//@   ensures (result > 0) == r(b, a)
+//@   ensures (result == 0) == (!r(a, b) && !r(b, a))
+//@   ensures result == -1 || result == 0 || result == 1
+//
+//@ func (LessFunc).Eqv(r, a, b) result
+//@   prop C10
+//@   ensures result == (!r(a, b) && !r(b, a))
+//
+//@ func (LessFunc).LessEq(r, a, b) result
+//@   prop C10
+//@   ensures result == (r.Less(a, b) || r.Eqv(a, b))
+//
+//@ func (LessFunc).Min(r, a, b) result
+//@   prop C10
+//@   requires forall p T, q T :: !(r(p, q) && r(q, p))
+//@   ensures r(a, b) ==> Eq(result, a)
+//@   ensures r(b, a) ==> Eq(result, b)
+//@   ensures Eq(result, a) || Eq(result, b)
+//@   ensures (Eq(result, a) && Eq(r.Max(a, b), b)) || (Eq(result, b) && Eq(r.Max(a, b), a))
+//@   tag minMaxArePermutation
+//@   ensures !r(a, result) && !r(b, result)
+//@   tag lowerBound
+//
+//@ func (LessFunc).Max(r, a, b) result
+//@   prop C10
+//@   requires forall p T, q T :: !(r(p, q) && r(q, p))
+//@   ensures r(a, b) ==> Eq(result, b)
+//@   ensures r(b, a) ==> Eq(result, a)
+//@   ensures Eq(result, a) || Eq(result, b)
+//@   ensures !r(result, a) && !r(result, b)
+//@   tag upperBound
+//
+//@ func (LessFunc).ThenComparing(r, other) result
+//@   prop C10
+//@   ensures forall a T, b T :: r.Compare(a, b) != 0 ==> result.Compare(a, b) == r.Compare(a, b)
+//@   tag primaryDecides
+//@   ensures forall a T, b T :: r.Compare(a, b) == 0 ==> result.Compare(a, b) == other.Compare(a, b)
+//@   tag tieBreak
+//@   ensures forall a T, b T :: r(a, b) ==> result.Less(a, b)
+//@   tag primaryLess
+//
+//@ func (LessFunc).Reversed(r) result
+//@   prop C10
+//@   requires forall p T, q T :: !(r(p, q) && r(q, p))
+//@   ensures forall a T, b T :: result.Less(a, b) == r(b, a)
+//@   tag flips
+//@   ensures forall a T, b T :: result.Eqv(a, b) == r.Eqv(a, b)
+//@   tag sameTies
+//@   ensures forall a T, b T :: result.Compare(a, b) == -r.Compare(a, b)
+//@   tag negates
+//
+// ---- LessGiven ----------------------------------------------------------------------
+//
+//@ func LessGiven() result
+//@   prop C10
+//@   inst int64
+//@   ensures forall a T, b T :: result.Less(a, b) == (a < b)
+//@   tag less
+//@   ensures forall a T, b T :: result.Eqv(a, b) == (a == b)
+//@   tag eqv
+//@   ensures forall a T, b T :: (result.Compare(a, b) < 0) == (a < b) && (result.Compare(a, b) == 0) == (a == b) && (result.Compare(a, b) > 0) == (a > b)
+//@   tag compare
+//@   ensures forall a T, b T :: result.LessEq(a, b) == (a <= b)
+//@   tag lessEq
+//@   ensures forall a T, b T :: a <= b ==> result.Min(a, b) == a && result.Max(a, b) == b
+//@   tag minmaxLe
+//@   ensures forall a T, b T :: b <= a ==> result.Min(a, b) == b && result.Max(a, b) == a
+//@   tag minmaxGe
